@@ -129,6 +129,12 @@ def run(scn, clauses=None):
                 if apt and apt[0].fut.done():
                     late.add(len(child.chunks))
                 child.chunks.append(s)
+        readlog = None
+        if 'logfile_read' in (scn.get('logs') or []):
+            # C11 on awaited histories (deadline ties included): the read log against the bytes the kernel handed over
+            from .sendlog import make_log
+            readlog = make_log(scn, [0], 'logfile_read')
+            child.logfile_read = readlog
         harness.tap_reads(child, delivered)
         r.late_chunks = late
         loop = aioloop.SimLoop()
@@ -366,6 +372,26 @@ def run(scn, clauses=None):
             if pend_op is not None and pend_op.get('op') == 'expect' and pend_op.get('to', -1) is not None:
                 out.append(Violation('C14.hang', 'awaited call with timeout %r blocked the loop for ever: %s'
                                      % (pend_op.get('to'), state['stop']), None, {}))
+        if readlog is not None and not scn.get('bad_byte'):
+            raw_ = engine.bytes_read_by_cut(r)
+            if raw_ is not None:
+                st_ = child.string_type
+                ws_ = readlog.writes()
+                if any(type(x) is not st_ for x in ws_):
+                    out.append(Violation('C11.type', 'the read log received %s in %s mode on the awaited path'
+                                         % (sorted(set(type(x).__name__ for x in ws_)), st_.__name__), None, {'log': 'logfile_read', 'call': {}}))
+                else:
+                    got_ = st_().join(ws_)
+                    if child.encoding is not None:
+                        import codecs
+                        want_ = codecs.getincrementaldecoder(child.encoding)(child.codec_errors).decode(raw_, False)
+                    else:
+                        want_ = raw_
+                    if got_ != want_:
+                        out.append(Violation('C11.read_truth', 'awaited history: the read log holds %d characters, the kernel handed over text of '
+                                             '%d (text delivered while no call was outstanding, or in the iteration in which a timer fired, '
+                                             'belongs in the log too)' % (len(got_), len(want_)), None, {'log': 'logfile_read', 'call': {}}))
+            r.w.probe('read_log_on_an_awaited_history')
         info = engine.collect_info(r)
         na = len([c for c in r.calls if c.get('async')])
         info['counters'] = {'async_calls': na, 'sync_calls': len(r.calls) - na,
